@@ -23,9 +23,11 @@ import (
 	"math/rand"
 	"net/http"
 	"os"
+	"path/filepath"
 	"sort"
 	"strings"
 	"sync"
+	"sync/atomic"
 	"time"
 
 	"golang.org/x/mod/module"
@@ -437,7 +439,7 @@ func runStore(h *header, c *caseRec, clients int) {
 				err = fmt.Errorf("panic: %v", r)
 			}
 		}()
-		srv, err = goproxytest.NewServer(dir, "127.0.0.1:0")
+		srv, err = goproxytest.NewServer(spelled(dir), "127.0.0.1:0")
 	}()
 	if err != nil {
 		res.Violate(vutil.Finding{Kind: "server-does-not-start", Class: fmt.Sprint(itemNames(h, c)),
@@ -537,4 +539,20 @@ func runStore(h *header, c *caseRec, clients int) {
 		traceW.Write(rec)
 	}
 	res.Count("concurrent_servers", 1)
+}
+
+// spelled returns one of several spellings of the same directory (as a caller might pass it: with a trailing separator,
+// with a "." element, with a doubled separator): the server serves the directory, however its name was written.
+var spellSeq int64
+
+func spelled(dir string) string {
+	switch atomic.AddInt64(&spellSeq, 1) % 4 {
+	case 1:
+		return dir + "/"
+	case 2:
+		return dir + "/."
+	case 3:
+		return filepath.Dir(dir) + "//" + filepath.Base(dir)
+	}
+	return dir
 }
